@@ -47,8 +47,11 @@ func authDictionary(pw string) []string {
 	return d
 }
 
+// formerPassword is the password of the previous generation in the runs that rotate the password by Restart.
+const formerPassword = "former-password"
+
 func genAuthReq(t *sim.Tape, pw string, cid int, i int) authReq {
-	dict := authDictionary(pw)
+	dict := append(authDictionary(pw), formerPassword)
 	r := authReq{Select: -1}
 	bulk := func(ss ...string) []resp.Value {
 		var vs []resp.Value
@@ -177,7 +180,9 @@ func runC08(t *testing.T, tape *sim.Tape, tier string) *Outcome {
 		cl.Srv.CACerts = pki.CA.CertPEM
 		o.stat("runs_with_tls_port", 1)
 	}
-	viaRestart := tape.Draw(4, "viarestart") == 0
+	how := tape.Draw(4, "viarestart")
+	viaRestart := how == 0 || how == 1
+	rotated := how == 1 // generation 1 already had a (different) password
 	cl.Sticky = tape.Draw(4, "sticky")
 	addr := addrOf(plainPort)
 	conns := map[string]*authConn{}
@@ -217,13 +222,21 @@ func runC08(t *testing.T, tape *sim.Tape, tier string) *Outcome {
 	}
 
 	if viaRestart {
-		// generation 1: no password; a client talks, then the password is set and the server restarted
+		// generation 1: no password (or, rotation, another password); a client talks, then the password is set and the server restarted
+		if rotated {
+			cl.Srv.SetRequirePass(formerPassword)
+			o.stat("password_rotated_by_restart", 1)
+		}
 		if err := cl.startServer(); err != nil {
 			o.violate("harness:start", "Start failed: %v", err)
 			cl.finish()
 			return o
 		}
-		g1 := cl.addClient("gen1", addr, [][]byte{resp.Cmd("SET", "g1", "v"), resp.Cmd("GET", "g1")})
+		g1items := [][]byte{resp.Cmd("SET", "g1", "v"), resp.Cmd("GET", "g1")}
+		if rotated {
+			g1items = append([][]byte{resp.Cmd("AUTH", formerPassword)}, g1items...)
+		}
+		g1 := cl.addClient("gen1", addr, g1items)
 		g1.Lockstep = true
 		cl.run(400, nil, nil)
 		cl.Srv.SetRequirePass(pw)
@@ -335,7 +348,7 @@ func runC08(t *testing.T, tape *sim.Tape, tier string) *Outcome {
 	cl.finish()
 	o.Sched = fmt.Sprintf("%x", hash64(strings.Join(o.Log, "\n")))
 	o.Nontrivial = true
-	o.Sample = map[string]any{"password": pw, "set_by_restart": viaRestart, "connections": sample}
+	o.Sample = map[string]any{"password": pw, "set_by_restart": viaRestart, "rotated_from_another_password": rotated, "connections": sample}
 	return o
 }
 
@@ -355,7 +368,7 @@ func init() {
 	register(&Check{
 		ID: "C08", Bubble: true, Run: runC08,
 		Runs:   map[string]int{"quick": 30000, "thorough": 1000000},
-		Rule:   "a case is one run of the full server with a required password (set before Start, or by Restart after a password-less generation) and 1..3 connections (in a quarter of the runs the TLS port is open too and each connection goes through it with probability 1/2, as a real crypto/tls client with an accepted certificate) each sending 1..8 (thorough ..16) requests over {AUTH with the exact password, with each dictionary candidate ('' , prefixes, extension, case swap, NUL/CRLF/space variants, doubled), null/missing argument, two-argument forms, SELECT, CONFIG SET/GET, PING/ECHO, data commands} under a seeded request- and byte-granularity interleaving; a per-connection authorization model is checked inside every handler call and over every reply; distinct = distinct event-log hashes; all runs non-trivial",
+		Rule:   "a case is one run of the full server with a required password (set before Start, or by Restart after a generation without password or with another password, which then is one of the wrong candidates) and 1..3 connections (in a quarter of the runs the TLS port is open too and each connection goes through it with probability 1/2, as a real crypto/tls client with an accepted certificate) each sending 1..8 (thorough ..16) requests over {AUTH with the exact password, with each dictionary candidate ('' , prefixes, extension, case swap, NUL/CRLF/space variants, doubled), null/missing argument, two-argument forms, SELECT, CONFIG SET/GET, PING/ECHO, data commands} under a seeded request- and byte-granularity interleaving; a per-connection authorization model is checked inside every handler call and over every reply; distinct = distinct event-log hashes; all runs non-trivial",
 		Real:   []string{"redis.Server Start (authenticator registration), accept loop, connection goroutines, AUTH executor, Server.Auth, auth.AuthManager, ClearTextPasswordAuthenticator, gate in executeCommand"},
 		Stub:   []string{"network: simulated", "user command handler: recording double (parks at entry)"},
 		Assume: []string{"two-argument AUTH with user '' or 'default' and the exact password may succeed or fail", "QUIT before authorization is not generated"},
